@@ -113,6 +113,13 @@ func c14BFD(names []string) map[string]*metallbconfig.BFDProfile {
 // c14Render renders the program with the sessions taken in the given order and the
 // advertisements of every session permuted by adPerm (nil = as generated).
 func c14Render(prog *vfFRRProgram, order []int, adShuffle *vfRand) (string, string, error) {
+	return c14RenderHostile(prog, order, adShuffle, nil)
+}
+
+// c14RenderHostile additionally (hostile != nil) lets one session submit a Set that must be refused (an
+// advertisement with 64 communities behind a valid one) and then another session re-submit its own,
+// unchanged advertisements: the rendered text must still denote the unchanged request.
+func c14RenderHostile(prog *vfFRRProgram, order []int, adShuffle *vfRand, hostile *vfRand) (string, string, error) {
 	var sess []VerifSession
 	for _, i := range order {
 		s := &prog.Sessions[i]
@@ -124,7 +131,27 @@ func c14Render(prog *vfFRRProgram, order []int, adShuffle *vfRand) (string, stri
 		if err != nil {
 			return "", "harness", err
 		}
-		sess = append(sess, VerifSession{Params: c14Params(s), Advs: advs})
+		sess = append(sess, VerifSession{Params: c14Params(s), Advs: advs, Resubmit: -1})
+	}
+	if hostile != nil && len(sess) >= 2 {
+		j := hostile.Intn(len(sess))
+		if len(sess[j].Advs) >= 1 {
+			bad := *sess[j].Advs[len(sess[j].Advs)-1]
+			bad.Communities = nil
+			for x := 0; x < 64; x++ {
+				cm, _ := community.New(fmt.Sprintf("650%02d:%d", x%90, x))
+				bad.Communities = append(bad.Communities, cm)
+			}
+			// the valid advertisement in front is one the session never requested
+			extra := *sess[j].Advs[0]
+			_, n, _ := net.ParseCIDR("203.0.113.0/24")
+			if extra.Prefix.IP.To4() == nil {
+				_, n, _ = net.ParseCIDR("2001:db8:113::/64")
+			}
+			extra.Prefix = n
+			sess[j].Rejected = []*bgp.Advertisement{&extra, &bad}
+			sess[j].Resubmit = (j + 1 + hostile.Intn(len(sess)-1)) % len(sess)
+		}
 	}
 	return VerifRender(c14Hostname, c14BFD(prog.BFDProfiles), sess)
 }
@@ -377,7 +404,12 @@ func c14Case(c *vfCase) {
 			conflict = true
 		}
 	}
-	text, stage, err := c14Render(&prog, ident, nil)
+	var hostile *vfRand
+	if c.R.Chance(1, 3) {
+		hostile = c.R.Fork()
+		c.Count("programs-with-a-rejected-set")
+	}
+	text, stage, err := c14RenderHostile(&prog, ident, nil, hostile)
 	if conflict {
 		// one prefix with two local preferences on one session: Set may legitimately refuse
 		if err != nil {
